@@ -343,26 +343,28 @@ func addObs(v *Verdict, o *flatObs) {
 	}
 }
 
-// crashSig gives a stable signature for a panic (top analysis/spec frame).
+// crashSig gives a stable signature for a panic: the innermost frame of the code under test (analysis first,
+// then its dependencies), without arguments.
 func crashSig(p string) string {
-	parts := strings.Split(p, " | ")
+	parts := strings.Split(strings.ReplaceAll(p, "\n", " | "), " | ")
+	frame := func(l string) string {
+		// "pkg.(*T).method(0xc000..., {...})" -> "pkg.(*T).method"
+		if i := strings.LastIndex(l, "("); i > 0 {
+			l = l[:i]
+		}
+		return strings.TrimPrefix(l, "github.com/go-openapi/")
+	}
+	isFrame := func(l string) bool {
+		return strings.HasPrefix(l, "github.com/") && strings.Contains(l, "(") && !strings.Contains(l, ".go:")
+	}
 	for _, l := range parts {
-		if strings.Contains(l, "github.com/go-openapi/analysis") && strings.Contains(l, "(") && !strings.Contains(l, ".go:") {
-			name := l
-			if i := strings.Index(name, "("); i > 0 {
-				name = name[:i]
-			}
-			name = strings.TrimPrefix(name, "github.com/go-openapi/")
-			return name
+		if strings.HasPrefix(l, "github.com/go-openapi/analysis") && isFrame(l) {
+			return frame(l)
 		}
 	}
 	for _, l := range parts {
-		if strings.Contains(l, "go-openapi") && !strings.Contains(l, ".go:") {
-			name := l
-			if i := strings.Index(name, "("); i > 0 {
-				name = name[:i]
-			}
-			return strings.TrimPrefix(name, "github.com/go-openapi/")
+		if isFrame(l) {
+			return frame(l)
 		}
 	}
 	return "unknown-frame"
